@@ -1315,8 +1315,31 @@ def check_meta_types(run: Run, res: Resolver) -> None:
     run.rule("R20.5c", "a value read from a document's META (doc.meta.get / doc.meta[...]) is Any-typed document content: before a str-only method or a `+` with a string it is converted with str() or guarded by isinstance(..., str) on every path", 2)
     p = run.project
     scope = [m for m in p.modules.values() if (m.name.split(".") + [""])[1] in ("mcp", "cli") or m.name.endswith(("core.gbnf_compiler", "core.hydrator", "core.sealer", "core.validator", "core.repair", "core.projector", "core.schema_extractor"))]
+    from ..cfg import atomic_conditions as _atomic
+
     for m in scope:
         for fi in m.functions.values():
+            # a str-only method called directly on a node's value (`child.value.strip()`): the value of an assignment is
+            # document content of any kind
+            direct = [c for c in walk_no_nested(fi.node) if isinstance(c, ast.Call) and isinstance(c.func, ast.Attribute) and c.func.attr in STR_ONLY_METHODS and isinstance(c.func.value, ast.Attribute) and c.func.value.attr == "value" and isinstance(c.func.value.value, ast.Name)]
+            if direct:
+                dcfg = CFG(fi.node)
+                for c in direct:
+                    subj = ast.unparse(c.func.value)
+                    holder = next((nd.id for nd in dcfg.nodes if nd.ast is not None and any(x is c for x in ast.walk(nd.ast))), None)
+                    conds = _atomic(dcfg, holder) if holder is not None else []
+                    ok = any(val and isinstance(t, ast.Call) and isinstance(t.func, ast.Name) and t.func.id == "isinstance" and len(t.args) == 2 and ast.unparse(t.args[0]) == subj and "str" in ast.unparse(t.args[1]) for t, val in conds)
+                    # inside `X if isinstance(subj, str) else Y` / `isinstance(subj, str) and subj.m()`
+                    par = getattr(c, "_parent", None)
+                    while par is not None and not isinstance(par, ast.stmt) and not ok:
+                        if isinstance(par, ast.IfExp) and f"isinstance({subj}, str)" in ast.unparse(par.test) and any(x is c for x in ast.walk(par.body)):
+                            ok = True
+                        if isinstance(par, ast.BoolOp) and isinstance(par.op, ast.And) and any(f"isinstance({subj}, str)" in ast.unparse(v) for v in par.values):
+                            ok = True
+                        par = getattr(par, "_parent", None)
+                    run.instance("R20.5c", m.loc(c), f"{fi.qualname}: `{norm(c)[:50]}` {'guarded by isinstance(..., str)' if ok else 'UNGUARDED'}", ok=ok)
+                    if not ok:
+                        run.violation("R20.5c", m, fi.qualname, c, f"`{norm(c)[:60]}` calls a str-only method on a node's value, which is document content of any kind (a number, a boolean, a list): AttributeError leaves the function - and the tool that called it - instead of an envelope")
             reads = [(n, n.targets[0].id) for n in walk_no_nested(fi.node) if isinstance(n, ast.Assign) and len(n.targets) == 1 and isinstance(n.targets[0], ast.Name) and _is_meta_read(n.value)]
             if not reads:
                 continue
